@@ -531,3 +531,78 @@ Fixpoint sweeptv_runs (sc : scalar) (runs : list (N * (outcome Z * outcome Z))) 
 
 Definition check_sweeptv (id : N) (lo : Z) (runs : list (N * (outcome Z * outcome Z))) : N :=
   snd (sweeptv_runs (SInt id) runs (lo, 0%N)).
+
+(* ------------------------------------------------ end to end (Schema::execute) -- *)
+(* An echo field `f(v: T!) : T!` of a static schema, the value supplied as an
+   inline literal, a variable or a variable default.  The pipeline is
+     validation (arguments_of_correct_type / default_values_of_correct_type:
+       non-null test, then the is_valid closure REGISTERED for T's GraphQL type
+       name, or the enum-value test of validation/utils.rs)
+     -> InputType::parse -> resolver -> to_value.
+   All integer types are registered under the name "Int"; the closure kept in
+   the registry is the one of the type registered first, i32 (`n.is_i64()`). *)
+Definition valid_registered (sc : scalar) (v : gv) : bool :=
+  match sc, v with
+  | SInt _, GInt z => match as_i64 z with Some _ => true | None => false end
+  | (SF32 | SF64), (GInt _ | GFloat _) => true
+  | SBool, GBool _ => true
+  | (SString | SBoxStr | SArcStr | SChar), GStr _ => true
+  | SID, (GInt _ | GStr _) => true
+  | SEnum items, (GEnum s | GStr s) => match find_name s items with Some _ => true | None => false end
+  | _, _ => false
+  end.
+
+Definition e2e_model (sc : scalar) (ov : option gv) : outcome gv :=
+  match ov with
+  | None | Some GNull => Err E_TYPE              (* required argument *)
+  | Some v =>
+      if valid_registered sc v
+      then bindo (parse_scalar sc v) (fun x => to_value_scalar sc x)
+      else Err E_TYPE
+  end.
+
+(* reading an echoed value back as a value of the Rust type *)
+Definition read_back (sc : scalar) (g : gv) : option rv :=
+  match sc, g with
+  | SInt _, GInt z => Some (RI z)
+  | SF64, GFloat b => Some (RF b)
+  | SF32, GFloat b => if N.eqb (f32_to_f64 (f64_to_f32 b)) b then Some (RF (f64_to_f32 b)) else None
+  | SBool, GBool b => Some (RB b)
+  | (SString | SBoxStr | SArcStr | SID), GStr s => Some (RS s)
+  | SChar, GStr [c] => Some (RC c)
+  | SEnum items, GEnum s => match find_name s items with Some i => Some (RE i) | None => None end
+  | _, _ => None
+  end.
+
+(* specification: the pipeline accepts exactly the values that denote a value
+   of the type, and the echoed output is that value's serialisation *)
+Definition spec_e2e_ok (sc : scalar) (v : gv) (r : outcome gv) : bool :=
+  match r with
+  | Ok g => match read_back sc g with
+            | Some x => spec_parse_ok sc v (Ok x)
+            | None => false
+            end
+  | _ => spec_parse_ok sc v (Err 0%N) && is_err r
+  end.
+
+(* 4: an unsigned 64-bit integer scalar offered an integer above i64::MAX: in
+      the domain, accepted by parse, rejected by the validation phase because
+      the closure registered for "Int" is i32's `n.is_i64()` *)
+Definition known_e2e (sc : scalar) (v : gv) : N :=
+  match sc, v with
+  | SInt id, GInt z =>
+      match row_ty id with
+      | Some ((U64 | Usize), _) => if i64_max <? z then 4%N else 0%N
+      | _ => 0%N
+      end
+  | _, _ => known_parse sc v
+  end.
+
+(* E2E: scalar, supply route (0 literal, 1 variable, 2 variable default; kept
+   for the replay), the value the pipeline saw, what Schema::execute answered
+   (Ok echoed value | Err) *)
+Definition check_e2e (sc : scalar) (route : N) (ov : option gv) (impl : outcome gv) : N :=
+  let v := match ov with Some v => v | None => GNull end in
+  let m := e2e_model sc ov in
+  if negb (wf_gv v) then 9%N
+  else verdict (out_eqb gv_eqb impl m) (spec_e2e_ok sc v m) (spec_e2e_ok sc v impl) (known_e2e sc v).
